@@ -488,6 +488,7 @@ class Interp(object):
     def set_item(self, st, base, idx, v, node):
         if isinstance(base, Ref):
             o = st.wobj(base)
+            self.emit(st, ("mutate", base.oid, o.label, "setitem"))
             if o.kind == "dict":
                 if o.items is None:
                     o.items = None
